@@ -1,4 +1,5 @@
 import TbotVerif.Props.EnvExec
+import TbotVerif.Spec.Env
 import TbotVerif.Props.Quote
 /-! The remote side of C09: how the shell model reads the command lines the drivers build.
     Quoting (`Props/Quote.lean`) makes every argument one word; the assignment word of `export`
@@ -9,11 +10,6 @@ namespace Env
 open Chan Quote EnvChan
 
 /-! ### bytes a command line may consist of -/
-
-/-- not on the black-list and not CR (the tty would turn it into LF) -/
-def okByte (bl : Bytes) (c : Byte) : Bool := !bl.contains c && c != CR
-
-def clean (bl : Bytes) (l : Bytes) : Bool := l.all (okByte bl)
 
 theorem clean_append (bl a b : Bytes) : clean bl (a ++ b) = (clean bl a && clean bl b) := by
   simp [clean, List.all_append]
